@@ -71,6 +71,23 @@ type Destination struct {
 
 // New creates a destination object. Note that it still needs to be told to run via Run().
 func New(routeName string, matcher matcher.Matcher, addr, spoolDir string, spool, pickle bool, periodFlush, periodReConn time.Duration, connBufSize, ioBufSize, spoolBufSize int, spoolMaxBytesPerFile, spoolSyncEvery int64, spoolSyncPeriod, spoolSleep, unspoolSleep time.Duration) (*Destination, error) {
+	// these would otherwise only blow up later on, in a background goroutine
+	// (time.NewTicker and NewWriter panic on non-positive values, make(chan) on negative ones)
+	if periodFlush <= 0 {
+		return nil, errors.New("flush interval must be > 0")
+	}
+	if periodReConn <= 0 {
+		return nil, errors.New("reconnect interval must be > 0")
+	}
+	if ioBufSize <= 0 {
+		return nil, errors.New("io buffer size must be > 0")
+	}
+	if connBufSize < 0 || spoolBufSize < 0 {
+		return nil, errors.New("buffer sizes can not be negative")
+	}
+	if spool && spoolSyncPeriod <= 0 {
+		return nil, errors.New("spool sync period must be > 0")
+	}
 	key := util.Key(routeName, addr)
 	addr, instance := addrInstanceSplit(addr)
 	dest := &Destination{
